@@ -94,6 +94,12 @@ def workload(make, make2, role):
         out.append(len(wrap(v)))
     elif role == "nested-elem":
         out.append(len(ident([[v], {"a": [v, make2()]}, (v, [make2()])])))
+    elif role == "sets-profiler":
+        # the traced code changes the profiler itself (a scoped profiler that ends by switching profiling off, as
+        # profile.Profile.runcall does): when the tracing block ends, the profiler installed BEFORE it is back all the same
+        out.append(type(ident(v)).__name__)
+        __import__("sys").setprofile(None)
+        out.append(type(ident(v)).__name__)
     elif role == "same-shape-nesting":
         # a container inside a container of the same kind and length (a 1x1 matrix, a pair of pairs, a dict under the same key):
         # comparing the inner with the outer one would compare the ELEMENTS, i.e. run their __eq__
@@ -199,5 +205,5 @@ def workload(make, make2, role):
     return out
 
 
-ROLES = ["arg", "kwarg", "elem", "nested-elem", "same-shape-nesting", "dictkey", "setelem", "yield", "return-only", "receiver", "method-arg",
+ROLES = ["arg", "kwarg", "elem", "nested-elem", "same-shape-nesting", "sets-profiler", "dictkey", "setelem", "yield", "return-only", "receiver", "method-arg",
          "coro-arg", "global", "nested-arg", "suspended-gen", "big-container-lifetime", "caller-local", "exception", "consume", "finalizer"]
